@@ -34,7 +34,7 @@ Proof.
   rewrite IH; [reflexivity|]. intros y Hy. apply H. right. exact Hy.
 Qed.
 
-Lemma sev_adequate : forall f e d en,
+Theorem sev_adequate : forall f e d en,
   subq_free e = true -> (edepth e < f)%nat -> eval_expr f d en e = sev en e.
 Proof.
   induction f as [|f IH]; intros e d en SF DP; [lia|].
@@ -981,3 +981,120 @@ Proof.
     destruct (sevp (r :: en) w) as [c|]; [|discriminate]. cbn [bind] in H.
     destruct c; [apply (WS w t (or_introl eq_refl)); exact H| |]; (apply IHws; [exact H|intros w' t' Hin; apply (WS w' t'); right; exact Hin]).
 Qed.
+
+(* ================================================================== region abstraction *)
+Definition same_region (cs : list Z) (x x' : Z) : Prop := forall c, In c cs -> (x ?= c) = (x' ?= c).
+Lemma region_congr : forall cs x x' e, lit_atoms cs e = true -> same_region cs x x' ->
+  sev [[VInt x]] e = sev [[VInt x']] e.
+Proof.
+  intros cs x x' e. induction e; intros LA SR; cbn [lit_atoms] in LA; try discriminate LA.
+  - reflexivity.
+  - (* comparison *)
+    destruct e1; try discriminate LA. destruct depth; try discriminate LA. destruct idx; try discriminate LA.
+    destruct e2; try discriminate LA. destruct v; try discriminate LA.
+    apply existsb_exists in LA. destruct LA as [c [Hin E]]. apply Z.eqb_eq in E. subst c.
+    cbn. unfold cmp3, vcompare, vcmp_nn. rewrite (SR z Hin). reflexivity.
+  - apply andb_true_iff in LA. destruct LA as [L1 L2]. cbn [sev]. rewrite (IHe1 L1 SR), (IHe2 L2 SR). reflexivity.
+  - apply andb_true_iff in LA. destruct LA as [L1 L2]. cbn [sev]. rewrite (IHe1 L1 SR), (IHe2 L2 SR). reflexivity.
+  - cbn [sev]. rewrite (IHe LA SR). reflexivity.
+  - destruct e; try discriminate LA. destruct depth; try discriminate LA. destruct idx; try discriminate LA. reflexivity.
+Qed.
+
+Fixpoint max_below (cs : list Z) (x : Z) : option Z :=
+  match cs with
+  | [] => None
+  | c :: cs' => match max_below cs' x with
+                | Some m => if (c <? x) && (m <? c) then Some c else Some m
+                | None => if c <? x then Some c else None
+                end
+  end.
+Fixpoint min_above (cs : list Z) (x : Z) : option Z :=
+  match cs with
+  | [] => None
+  | c :: cs' => match min_above cs' x with
+                | Some m => if (x <? c) && (c <? m) then Some c else Some m
+                | None => if x <? c then Some c else None
+                end
+  end.
+Lemma max_below_spec : forall cs x,
+  match max_below cs x with
+  | Some m => In m cs /\ m < x /\ forall c, In c cs -> c < x -> c <= m
+  | None => forall c, In c cs -> x <= c
+  end.
+Proof.
+  induction cs as [|c cs IH]; intros x; cbn [max_below]; [intros c []|].
+  specialize (IH x). destruct (max_below cs x) as [m|].
+  - destruct IH as [Hin [Hlt Hmax]]. destruct ((c <? x) && (m <? c)) eqn:G.
+    + apply andb_true_iff in G. destruct G as [G1 G2]. apply Z.ltb_lt in G1, G2. repeat split; [left; reflexivity|lia|].
+      intros c' [<-|Hc'] L; [lia|]. specialize (Hmax c' Hc' L). lia.
+    + apply andb_false_iff in G. repeat split; [right; exact Hin|exact Hlt|].
+      intros c' [<-|Hc'] L; [|apply Hmax; assumption]. destruct G as [G|G]; [apply Z.ltb_ge in G; lia|apply Z.ltb_ge in G; lia].
+  - destruct (c <? x) eqn:G.
+    + apply Z.ltb_lt in G. repeat split; [left; reflexivity|exact G|]. intros c' [<-|Hc'] L; [lia|]. specialize (IH c' Hc'). lia.
+    + apply Z.ltb_ge in G. intros c' [<-|Hc']; [exact G|apply IH; exact Hc'].
+Qed.
+Lemma min_above_spec : forall cs x,
+  match min_above cs x with
+  | Some m => In m cs /\ x < m /\ forall c, In c cs -> x < c -> m <= c
+  | None => forall c, In c cs -> c <= x
+  end.
+Proof.
+  induction cs as [|c cs IH]; intros x; cbn [min_above]; [intros c []|].
+  specialize (IH x). destruct (min_above cs x) as [m|].
+  - destruct IH as [Hin [Hlt Hmin]]. destruct ((x <? c) && (c <? m)) eqn:G.
+    + apply andb_true_iff in G. destruct G as [G1 G2]. apply Z.ltb_lt in G1, G2. repeat split; [left; reflexivity|lia|].
+      intros c' [<-|Hc'] L; [lia|]. specialize (Hmin c' Hc' L). lia.
+    + apply andb_false_iff in G. repeat split; [right; exact Hin|exact Hlt|].
+      intros c' [<-|Hc'] L; [|apply Hmin; assumption]. destruct G as [G|G]; [apply Z.ltb_ge in G; lia|apply Z.ltb_ge in G; lia].
+  - destruct (x <? c) eqn:G.
+    + apply Z.ltb_lt in G. repeat split; [left; reflexivity|exact G|]. intros c' [<-|Hc'] L; [lia|]. specialize (IH c' Hc'). lia.
+    + apply Z.ltb_ge in G. intros c' [<-|Hc']; [exact G|apply IH; exact Hc'].
+Qed.
+Lemma reps_In : forall cs c k, In c cs -> k = c - 1 \/ k = c \/ k = c + 1 -> In (VInt k) (reps cs).
+Proof.
+  intros cs c k Hin Hk. unfold reps. right. right. apply in_flat_map. exists c. split; [exact Hin|].
+  destruct Hk as [->|[->| ->]]; cbn; auto.
+Qed.
+Lemma cmp_same : forall a b c, (a < c /\ b < c) \/ (a = c /\ b = c) \/ (c < a /\ c < b) -> (a ?= c) = (b ?= c).
+Proof.
+  intros a b c [[H1 H2]|[[-> ->]|[H1 H2]]]; [|reflexivity|].
+  - apply Z.compare_lt_iff in H1, H2. congruence.
+  - apply Z.compare_gt_iff in H1, H2. congruence.
+Qed.
+(* every integer lies in the region of a representative *)
+Lemma rep_exists : forall cs x, exists x', In (VInt x') (reps cs) /\ same_region cs x x'.
+Proof.
+  intros cs x. pose proof (max_below_spec cs x) as MB. pose proof (min_above_spec cs x) as MA.
+  destruct (existsb (Z.eqb x) cs) eqn:EX.
+  - apply existsb_exists in EX. destruct EX as [c [Hin E]]. apply Z.eqb_eq in E. subst c.
+    exists x. split; [apply (reps_In cs x); auto|]. intros c _. reflexivity.
+  - assert (NE : forall c, In c cs -> c <> x).
+    { intros c Hc ->. assert (existsb (Z.eqb x) cs = true) by (apply existsb_exists; exists x; split; [exact Hc|apply Z.eqb_refl]). congruence. }
+    destruct (max_below cs x) as [m|].
+    + destruct MB as [Hin [Hlt Hmax]]. exists (m + 1). split; [apply (reps_In cs m); auto|].
+      intros c Hc. apply cmp_same. pose proof (NE c Hc). destruct (Z.lt_trichotomy c x) as [L|[E|G]]; [|congruence|].
+      * right. right. specialize (Hmax c Hc L). lia.
+      * left. lia.
+    + destruct (min_above cs x) as [m|].
+      * destruct MA as [Hin [Hlt Hmin]]. exists (m - 1). split; [apply (reps_In cs m); auto|].
+        intros c Hc. apply cmp_same. pose proof (NE c Hc). pose proof (MB c Hc). left. specialize (Hmin c Hc). lia.
+      * exists 0. split; [right; left; reflexivity|]. intros c Hc. pose proof (NE c Hc). pose proof (MB c Hc). pose proof (MA c Hc). lia.
+Qed.
+(* the per-program validator restricted to literal-comparison atoms is a PROOF for that program, for all values of the column *)
+Theorem equiv_regions_sound : forall e e' cs, equiv_regions e e' cs = true ->
+  forall v, v = VNull \/ (exists z, v = VInt z) -> sev [[v]] e = sev [[v]] e'.
+Proof.
+  intros e e' cs H v Hv. unfold equiv_regions in H. apply andb_true_iff in H. destruct H as [H F].
+  apply andb_true_iff in H. destruct H as [L L']. rewrite forallb_forall in F.
+  assert (S : forall w, In w (reps cs) -> sev [[w]] e = sev [[w]] e').
+  { intros w Hw. specialize (F w Hw). unfold same_on in F. destruct (sev [[w]] e) as [a|]; [|discriminate].
+    destruct (sev [[w]] e') as [b|]; [|discriminate]. apply value_eqb_eq in F. subst. reflexivity. }
+  destruct Hv as [->|[z ->]]; [apply S; left; reflexivity|].
+  destruct (rep_exists cs z) as [z' [Hin SR]].
+  rewrite (region_congr cs z z' e L SR), (region_congr cs z z' e' L' SR). apply S. exact Hin.
+Qed.
+Theorem equiv_regions_example :
+  equiv_regions (EAnd (ECmp CGe (ECol 0 0) (ELit (VInt 5))) (ECmp CLe (ECol 0 0) (ELit (VInt 5))))
+                (ECmp CEq (ECol 0 0) (ELit (VInt 5))) [5] = true /\
+  equiv_regions (ENot (ECmp CLt (ECol 0 0) (ELit (VInt 3)))) (ECmp CGt (ECol 0 0) (ELit (VInt 3))) [3] = false.
+Proof. split; vm_compute; reflexivity. Qed.
